@@ -635,7 +635,8 @@ class Exec:
             yield from self.ev_call_starred(node, st)
             return
         # special forms that must see syntax
-        if isinstance(node.func, ast.Name) and node.func.id in bm.SYNTAX_FORMS and not self._shadowed(st, node.func.id):
+        if isinstance(node.func, ast.Name) and node.func.id in bm.SYNTAX_FORMS and (
+            node.func.id in bm.SPEC_FORMS or not self._shadowed(st, node.func.id)):
             yield from bm.SYNTAX_FORMS[node.func.id](self, st, node)
             return
         for st1, f in self.ev(node.func, st):
@@ -886,9 +887,7 @@ class Exec:
             return
         mod, node = get_def(f.module, f.qualname)
         contract = self.db.get(key)
-        if contract is not None and not contract.inline and not (
-            self.cur_contract is not None and False
-        ):
+        if contract is not None and not contract.inline and not contract.inline_calls:
             yield from self.call_by_contract(st, f, node, contract, args, kwargs)
             return
         if contract is None and not self.db.is_inline(key):
